@@ -157,4 +157,62 @@ def suite_timing(ctx, sequences=True):
     return s
 
 
-SUITES = [suite_timing]
+def suite_defaults(ctx):
+    """a client that leaves the timing keys to the library's defaults waits what the documentation says those defaults are
+    (doc/source/udsoncan/client.rst: "Default value of N" under each attribute); the documented numbers are read on every run"""
+    import os
+    import re
+    from .. import clientlib as cl
+    from udsoncan.client import Client
+    from udsoncan import Request, services
+    s = Suite('defaults')
+    path = os.path.join(core.REPO, 'doc', 'source', 'udsoncan', 'client.rst')
+    doc = {}
+    try:
+        text = open(path).read()
+        for key in ('request_timeout', 'p2_timeout', 'p2_star_timeout'):
+            m = re.search(r'\.\. attribute:: %s\b(.*?)(?=\n\.\. )' % key, text, re.S)
+            d = re.search(r'Default value (?:of|is) ([0-9.]+)', m.group(1)) if m else None
+            if d:
+                doc[key] = float(d.group(1))
+    except OSError:
+        pass
+    if len(doc) != 3:
+        s.notes.append('documented defaults not found in %s (found %s): nothing compared' % (path, sorted(doc)))
+        return s
+    tick = cl.TICK
+    for kind in ('silence', 'pending-then-silence', 'pending-chain'):
+        conn = cl.stub.StubConn(cl.CLOCK)
+        client = Client(conn)                       # no configuration at all
+        conn.opened = True
+        if kind == 'silence':
+            conn.script = []
+        elif kind == 'pending-then-silence':
+            conn.script = [(10, b'\x7f\x3e\x78')]
+        else:
+            conn.script = [(int(i * 0.9 / tick), b'\x7f\x3e\x78') for i in range(1, 12)]
+        conn.log = []
+        cl.observe_outer(conn, lambda: client.send_request(Request(services.TesterPresent, subfunction=0)))
+        waits = [(o[1] * tick, o[2] * tick) for o in conn.log if o[0] == 'wait']
+        rt, p2, p2s = doc['request_timeout'], doc['p2_timeout'], doc['p2_star_timeout']
+        want = [(0.0, min(p2, rt))]
+        if kind == 'pending-then-silence':
+            want.append((10 * tick, min(p2s, rt - 10 * tick)))
+        elif kind == 'pending-chain':
+            for i in range(1, 12):
+                t = int(i * 0.9 / tick) * tick
+                if t >= rt:
+                    break
+                want.append((t, min(p2s, rt - t)))
+        s.evaluations += 1
+        s.distinct.add(kind)
+        got = [(round(a, 6), round(b, 6)) for a, b in waits]
+        wantr = [(round(a, 6), round(b, 6)) for a, b in want]
+        if got != wantr:
+            s.fail({'site': 'send_request', 'input': 'Client(conn) with the default configuration, reply schedule: %s' % kind, 'observed': 'waits %s' % got,
+                    'required': 'waits %s (documented defaults: request_timeout %s, p2_timeout %s, p2_star_timeout %s)' % (wantr, rt, p2, p2s)})
+    s.exhaustive = True
+    return s
+
+
+SUITES = [suite_timing, suite_defaults]
